@@ -521,3 +521,51 @@ def finish(M, lines, exp, rng, dump=True):
     lines.append("dom-end")
     exp.append({"ok": True, "ledger": "ok"})
     return lines, exp
+
+
+FIELDS = [b"id", b"name", b"created_at", b"updated_at", b"firstname", b"lastname", b"gender", b"email", b"description", b"zip", b"address_line_1",
+          b"address_line_2", b"phone", b"is_active", b"k", b"zzzzzzzza", b"azzzzzzzz", b"status", b"user_id", b"organization", b"a", b"ab", b"abcdefgh",
+          b"abcdefgi", b"hgfedcba", b"hgfedcbb", b"\xffaaaaaaa", b"a\xffaaaaaa", b"aaaaaaa\xff", b"", b"type", b"timestamp"]
+
+
+def wide_keys(rng):
+    """8-28 distinct keys as real records have them: short (< 8 bytes) and long mixed, long keys whose byte order and first-word order
+    disagree, plus one family of equally long keys (> 64 bytes, no multiple of 32) that differ in exactly one byte - first, last, at the
+    32-byte block edges and just in front of the last 32 bytes"""
+    keys = rng.sample(FIELDS, rng.randrange(8, 22))
+    L = rng.choice([65, 70, 95, 100, 130, 191])
+    base = bytes([0x4C]) * L
+    fam = [base]
+    for p in sorted({0, 31, 32, 33, (L - 32) // 32 * 32, L - 33, L - 32, L - 1}):
+        if 0 <= p < L:
+            fam.append(base[:p] + b"M" + base[p + 1:])
+    keys += rng.sample(fam, min(len(fam), rng.randrange(2, 7)))
+    rng.shuffle(keys)
+    return keys
+
+
+def wide_lookup(rng, alloc):
+    """every key of a wide object looked up through every overload: without a map, with a map, after the map was destroyed, with a new map"""
+    keys = wide_keys(rng)
+    lines = [f"dom-reset {alloc}", "dom-set 0 / obj"]
+    exp = [{"_skip": True}, {"_skip": True}]
+    for i, k in enumerate(keys):
+        lines.append(f"dom-add 0 / {k.hex() or '-'} u{i} {rng.choice('01')}")
+        exp.append({"_skip": True})
+    probes = list(keys) + [k[:-1] for k in keys[:5] if k] + [k + b"L" for k in keys[:5]]
+
+    def look():
+        for pk in probes:
+            idx = keys.index(pk) if pk in keys else None
+            lines.append(f"dom-find 0 / {pk.hex() or '-'}")
+            exp.append({"sv": str(idx) if idx is not None else "none", "pl": str(idx) if idx is not None else "none",
+                        "has": "1" if idx is not None else "0", "at": f"u{idx}" if idx is not None else "n"})
+    look()
+    for cmd in ("dom-createmap 0 /", "dom-destroymap 0 /", "dom-createmap 0 /"):
+        lines.append(cmd)
+        exp.append({"_skip": True})
+        look()
+    lines.append("dom-end")
+    exp.append({"ok": True, "ledger": "ok"})
+    return lines, exp
+
